@@ -236,7 +236,7 @@ def observe(kind, el):
         items = [snap(kind, x) for x in el.compute()]
     except Exception as exc:      # noqa
         return {"ok": False, "exc": exc_name(exc), "repr": repr(exc)[:200]}
-    return {"ok": True, "items": items}
+    return {"ok": True, "items": items, "attrs": public_attrs(kind, el)}
 
 
 class Abort(Exception):
@@ -380,7 +380,35 @@ def result_mismatch(kind, exp, got):
         m = data_mismatch(kind, e["d"], g["d"])
         if m:
             return m
+    # the documented public attributes agree with what was yielded
+    attrs = got.get("attrs", {})
+    t = kind["t"]
+    if t == "Count" and "count" in attrs and attrs["count"] != out[0]["d"]:
+        return "attribute-count"
+    if t == "Sum" and "total" in attrs and attrs["total"] != out[0]["d"]:
+        return "attribute-total"
+    if t == "DSum" and "total" in attrs and Fraction(attrs["total"]) != limbs_value(out[0]["d"]):
+        return "attribute-total"
+    if t == "Store" and "group" in attrs:
+        want = out[0]["d"] if kind["grp"] else out
+        if attrs["group"] != [norm_value(v) for v in want]:
+            return "attribute-group"
     return None
+
+
+def public_attrs(kind, el):
+    """Documented public attributes: Count.count, Sum.total / DSum.total, StoreFilled.group."""
+    t = kind["t"]
+    try:
+        if t == "Count":
+            return {"count": el.count}
+        if t in ("Sum", "DSum"):
+            return {"total": el.total}
+        if t == "Store":
+            return {"group": [enc_filled(v) for v in el.group]}
+    except AttributeError:
+        pass          # a missing attribute downgrades coverage, it is not an alarm
+    return {}
 
 
 def py_ctx_enc(c):
